@@ -437,13 +437,14 @@ def run_C08(ctx):
 # ---------------------------------------------------------------------------------------------
 # Backend-initiated requests: C18 (+ proxy/request-server parts of C06, C07, C01, C08)
 def bereq_run(ctx, hostile=False, functional=True):
-    depth = 4 if ctx.tier == "quick" else 5
+    # letters after the flag prefix that sets up the history's starting configuration (any consistent setting of the four flags)
+    depth = 3 if ctx.tier == "quick" else 4
     # the thorough model has millions of histories: all are model-checked, a seeded stride of them is replayed
     cases = ctx.tlc_mc("MC_BackendReq", "MC_BackendReq_" + ctx.tier, max_cases=400000)
     hc = list(ctx.hcases)
     sess = []
     if functional:
-        full = [c for c in cases if len(c["steps"]) == depth - 0]
+        full = [c for c in cases if len(c["steps"]) - c.get("base", 0) == depth]
         # histories whose last request is really acknowledged (feature enabled, reply-ack on both ends) carry the core of C18:
         # all of them are kept, and the value-bearing ones are repeated for every class of handler value / errno
         def acked_request(steps):
@@ -1107,10 +1108,14 @@ NPOOL = 6
 MEM_NEG = dict(op="negotiate", feats=[30], pf=[3, 13, 15, 1])
 
 
-def mem_pool(rnd, contig=False):
+def mem_pool(rnd, contig=False, top=False):
     G = rnd.choice([0x1000, 0x10_0000, 0x7f00_0000_0000, (1 << 64) - 0x40000])
     uas = [0x7000_0000_0000, 0x1000, (1 << 64) - 0x100000, 0x5555_0000_0000, 0x1234_5678_0000, 0x2222_0000_0000]
     rnd.shuffle(uas)
+    if top:
+        # the user range of region 3 ends exactly at 2^64 (the last byte of the address space is its last byte): the pinned code
+        # refuses such a region, which the statement allows; one that is accepted must be translated like any other
+        uas[3] = (1 << 64) - (POOL_HI[3] - POOL_LO[3]) * 0x1000
     if contig:
         # regions 0, 1, 5 (adjacent in guest-physical space) are adjacent in the frontend's address space as well
         uas[1] = uas[0] + 0x2000
@@ -1120,7 +1125,7 @@ def mem_pool(rnd, contig=False):
         # user address (the same memory re-backed by a different file / offset)
         uas[4] = uas[0]
     pool = [dict(gpa=limbs(G + POOL_LO[r] * 0x1000), size=limbs((POOL_HI[r] - POOL_LO[r]) * 0x1000), ua=limbs(uas[r]),
-                 off=limbs(rnd.choice([0, 0x1000, 0x3000]))) for r in range(NPOOL)]
+                 off=limbs(rnd.choice([0, 0x1000, 0x3000])), top=bool(top and r == 3)) for r in range(NPOOL)]
     if uas[4] == uas[0] and pool[4]["off"] == pool[0]["off"]:
         pool[4]["off"] = limbs(0x2000)
     return pool, G
@@ -1179,7 +1184,7 @@ def run_C13(ctx):
         return (len(touched & {0, 1, 5}) >= 2 and 4 not in touched) or (i % 4 == 0 and 4 not in touched)
     for i, c in enumerate(trans):
         contig = wants_contig(c["steps"], i)
-        pool, G = mem_pool(rnd, contig)
+        pool, G = mem_pool(rnd, contig, top=i % 3 == 1)
         letters = [mem_letter(a, i + j) for j, a in enumerate(c["steps"])]
         steps = [MEM_NEG]
         for j, lt in enumerate(letters):
@@ -1202,7 +1207,7 @@ def run_C13(ctx):
         hist = random.Random(ctx.seed).sample(hist, min(len(hist), 40000))
     for i, c in enumerate(hist):
         contig = wants_contig(c["steps"], i)
-        pool, G = mem_pool(rnd, contig)
+        pool, G = mem_pool(rnd, contig, top=i % 3 == 1)
         letters = [mem_letter(a, i + j) for j, a in enumerate(c["steps"])]
         touched = sorted({r for lt in letters for r in (lt.get("rids") or [lt.get("rid")])})
         for k, xl in enumerate(touched):
@@ -1240,7 +1245,10 @@ def ring_letter(a, cur_rid=0):
         d = dict(op=op, rids=[a["n"]], badfd=False)
     elif op == "set_vring_addr":
         d.update(rid=cur_rid, odesc=limbs(0x100 + 0x100 * qq), oavail=limbs(0x300 + 0xa00 * qq), oused=limbs(0x400 + 0xc00 * qq), used_idx=a["usedIdx"])
-        if a.get("n") == 1:
+        if a.get("n") == 2 and cur_rid != 2:
+            # inside the user range of pool region 2, whose ADD_MEM_REG was refused in the case's prefix (see run_C14)
+            d.update(rid=2, n=limbs(2))
+        elif a.get("n") in (1, 2):
             # pool regions 0 and 4 are two pages long: the first user address past the region
             d.update(odesc=limbs(0x2000), n=limbs(1))
         else:
@@ -1266,6 +1274,11 @@ def run_C14(ctx):
         pool, G = mem_pool(rnd)
         pre = [dict(op="negotiate", feats=[], pf=[3, 5, 13, 15]), dict(op="set_mem_table", rids=[0], badfd=False),
                dict(op="set_vring_kick", q=0, fd="new"), dict(op="set_vring_kick", q=1, fd="new")]
+        if any(a["op"] == "set_vring_addr" and a.get("n") == 2 for a in c["steps"]):
+            # a refused update earlier on the same daemon: region 2 overlaps region 0 of the table, its ADD_MEM_REG is turned down
+            # (which ends the connection); the frontend connects again and goes on with the table it had
+            neg = pre[0]
+            pre = pre[:2] + [dict(op="add_mem_reg", rid=2, badfd=False), dict(op="reconnect"), neg] + pre[2:]
         # a ring used by the backend needs a valid layout first
         if any(a["op"] == "use_ring" for a in c["steps"]):
             pre += [ring_letter(dict(op="set_vring_addr", q=q, usedIdx=0)) for q in (0, 1)]
